@@ -17,3 +17,8 @@ BOUNDED = [hub_bounded('C12-namespaces', ['ns', 'svghtml', 'plain', 'svg5', 'bas
 FUNCTIONS = FUNCTIONS + [q for q in ATTRS if q not in FUNCTIONS]
 
 VALIDATION = [validate_bs4]
+
+FUNCTIONS = FUNCTIONS + [q for q in [q for q in PARSE_SMALL if q.endswith("parse_tag_pattern")] if q not in FUNCTIONS]
+STRUCTURAL = (globals().get('STRUCTURAL') or []) + [dispatch_structural]
+TRUSTED = list(TRUSTED) + [A_TOK]
+ASSUMPTIONS = TRUSTED
